@@ -59,11 +59,44 @@ def c_atom(a):
     return 'ANone'      # an object the model has no value for; flagged through well_typed if it is code-relevant
 
 
+class Emitter:
+    """Coq text for forms with shared subtrees emitted once (mutation neighbours share almost
+    everything): `defs` are Definitions to put in front."""
+
+    def __init__(self):
+        self.memo = {}
+        self.defs = []
+
+    def name(self, txt, prefix='n'):
+        nm = self.memo.get(txt)
+        if nm is None:
+            nm = '%s%d' % (prefix, len(self.memo))
+            self.memo[txt] = nm
+            self.defs.append('Definition %s := %s.' % (nm, txt))
+        return nm
+
+    def node(self, n):
+        attrs = clist('(%s, %s)' % (cstr(k), c_atom(v)) for k, v in sorted(n['a'].items()))
+        if n['a']:
+            attrs = self.name(attrs, 'a')
+        txt = 'Node %s (ATup %s) %s %s' % (cstr(n['c']), clist('(AInt %d)' % s for s in n['sh']), attrs,
+                                        clist(self.node(c) for c in n['ch']))
+        return self.name(txt)
+
+    def text(self):
+        return '\n'.join(self.defs) + '\n'
+
+
+_EM = [Emitter()]
+
+
 def c_node(n):
-    return '(Node %s (ATup %s) %s %s)' % (
-        cstr(n['c']), clist('(AInt %d)' % s for s in n['sh']),
-        clist('(%s, %s)' % (cstr(k), c_atom(v)) for k, v in sorted(n['a'].items())),
-        clist(c_node(c) for c in n['ch']))
+    return _EM[0].node(n)
+
+
+def new_emitter():
+    _EM[0] = Emitter()
+    return _EM[0]
 
 
 def c_opt(x):
@@ -120,7 +153,7 @@ Definition bad_pairs : list nat :=
      else []) items) items.
 Definition bad_wf : list nat :=
   flat_map (fun kf => if wf_form current_table (snd kf) then [] else [(N * N + fst kf)%nat]) (enum 0%nat forms).
-Eval vm_compute in (bad_wf ++ bad_pairs).
+Eval vm_compute in (app bad_wf bad_pairs).
 '''
 
 
@@ -401,6 +434,21 @@ def gen_table(ctx):
     return tr, allok
 
 
+def already_reported(ctx, sig):
+    return any(v[0] == sig for v in ctx.violations) or sig in ctx.known_hits
+
+
+def confirm_different(ctx, s1, s2, od, observed=None):
+    """True iff the canonical sources of 10 independent generations of s1 and of s2 (or the
+    observed canonical sha) have nothing in common."""
+    a, b = dict(s1, id=0), dict(s2, id=1)
+    o = ctx.impl.run(DRIVER, {'mode': 'confirm', 'specs': [a, b], 'n': 10})['sets']
+    sa, sb = set(o['0:%d' % od]), set(o['1:%d' % od])
+    if observed is not None:
+        return observed not in sa
+    return not (sa & sb)
+
+
 def check_forms_property(ctx, specs, results):
     """The property itself on the implementation: equal vf.hash() => identical generated code,
     for all pairs of forms of the run.  Independent oracle: the generated text."""
@@ -413,11 +461,22 @@ def check_forms_property(ctx, specs, results):
         for od in ('0', '1'):
             codes = {}
             for s, r in l:
-                codes.setdefault(r['code'][od], (s, r))
+                # a form whose generation is rejected (ValueError/AssertionError/...) is not compared:
+                # rejections are not failures
+                if not r['code'][od].startswith('ERR'):
+                    codes.setdefault(r['code'][od], (s, r))
             if len(codes) > 1:
                 (s1, r1), (s2, r2) = list(codes.values())[:2]
                 diff = first_difference(r1.get('tree'), r2.get('tree'))
                 ncoll += 1
+                if already_reported(ctx, 'impl:hash-collision:%s' % diff):
+                    continue
+                # generate() is not deterministic text-wise; the canonical form removed the variation in every
+                # case seen, but confirm with independent generations before calling it a collision
+                if not confirm_different(ctx, s1, s2, od == '1'):
+                    ctx.cov['unstable_pairs_not_counted'] = ctx.cov.get('unstable_pairs_not_counted', 0) + 1
+                    ncoll -= 1
+                    continue
                 ctx.report('impl:hash-collision:%s' % diff,
                            'two forms with the same vf.hash() generate different code (on_demand=%s); they differ in %s: '
                            '%s  ///  %s' % (od == '1', diff, s1['code'], s2['code']),
@@ -439,11 +498,11 @@ def tie_keys(ctx, specs, results):
             ctx.report('tie:derived-attribute', 'an attribute listed as derived in translate/exprclasses_derived.json is not: %s' % r['tree']['derived_bad'],
                        {'specs': [s]}, found_input=False)
     ok = [(s, r) for s, r in ok if not r['tree']['derived_bad']]
-    ok.sort(key=lambda sr: (sr[0]['group'], sr[0]['id']))
+    ok.sort(key=lambda sr: (sr[1]['chunk'], sr[0]['group'], sr[0]['id']))
     files, chunks = [], []
     cur, nodes = [], 0
     for s, r in ok:
-        if cur and (len(cur) >= 60 or nodes + r['tree']['nodes'] > 9000):
+        if cur and (len(cur) >= 60 or nodes + r['tree']['nodes'] > 9000 or cur[-1][1]['chunk'] != r['chunk']):
             chunks.append(cur)
             cur, nodes = [], 0
         cur.append((s, r))
@@ -457,11 +516,12 @@ def tie_keys(ctx, specs, results):
         if perturb:
             ids = list(ids)
             ids[0] = len(cls) + 7 if ids.count(ids[0]) > 1 else ids[1 % len(ids)]
+        em = new_emitter()
         try:
             forms = [c_form(r['tree']) for _, r in chunk]
-        except ValueError as e:
+        except ValueError:
             return None
-        return (CASE_HEADER + 'Definition forms : list form := [\n' + ';\n'.join(forms) + '].\n'
+        return (CASE_HEADER + em.text() + 'Definition forms : list form := [\n' + ';\n'.join(forms) + '].\n'
                 + 'Definition classes : list nat := %s.\n' % clist('%d%%nat' % i for i in ids) + PAIRS_TAIL)
     for n, ch in enumerate(chunks):
         t = text(ch)
@@ -547,10 +607,10 @@ def cache_sequences(ctx, specs, results, tr_ok):
         seqs += [[(m, 0), (m, 1)], [(m, 1), (m, 0)]]
     gl = sorted(groups)
     rng.shuffle(gl)
-    for g in gl[:(len(gl) if thorough else 45)]:
+    for g in gl[:(len(gl) if thorough else 30)]:
         ids = groups[g]
         base = ids[0]
-        for other in rng.sample(ids[1:], min(len(ids) - 1, 6 if thorough else 3)):
+        for other in rng.sample(ids[1:], min(len(ids) - 1, 6 if thorough else 2)):
             a, b = base, other
             seqs += [[(a, 0), (b, 0)], [(b, 0), (a, 0)], [(a, 0), (b, 0), (a, 0), (b, 0)],
                      [(a, 1), (b, 0), (b, 1), (a, 0)], [(b, 1), (a, 1), (b, 1)]]
@@ -591,8 +651,14 @@ def cache_sequences(ctx, specs, results, tr_ok):
                 else:
                     got = 'ERR/' + str(ob)
                 ctx.count(('cache', tuple(q[:k + 1])), nontrivial=k > 0)
+                sig = 'impl:cache-returns-other-form:%s' % (good[q[0][0]][0]['mut'] if k else 'first')
+                if got != want and already_reported(ctx, sig):
+                    continue
+                if got != want and 'src' in ob and not want.startswith('ERR') and not confirm_different(ctx, s, s, bool(od), observed=got):
+                    ctx.cov['unstable_pairs_not_counted'] = ctx.cov.get('unstable_pairs_not_counted', 0) + 1
+                    continue
                 if got != want:
-                    ctx.report('impl:cache-returns-other-form:%s' % (good[q[0][0]][0]['mut'] if k else 'first'),
+                    ctx.report(sig,
                                'request %d of the sequence returned an assembler generated from different source than the requested form generates '
                                '(requested %s on_demand=%s, got %s)' % (k, s['code'], bool(od), ob),
                                {'sequence': [[good[i][0]['code'], o_] for i, o_ in q], 'specs': [good[i][0] for i, _ in q],
@@ -608,18 +674,21 @@ def cache_sequences(ctx, specs, results, tr_ok):
         ctx.broken.append('a predefined form does not build/generate')
         return
     files = []
-    per = 40
+    per = 60
+    if not thorough:
+        cases = cases[:300]
     for n in range(0, len(cases), per):
         chunk = cases[n:n + per]
         ids = sorted({sid for q, _ in chunk for sid, _ in q} | {s['id'] for s in seeds})
         ids = [i for i in ids if good[i][1].get('tree') is not None]
         pos = {sid: k for k, sid in enumerate(ids)}
         chunk = [(q, obs) for q, obs in chunk if all(sid in pos for sid, _ in q)]
+        em = new_emitter()
         try:
             forms = [c_form(good[i][1]['tree']) for i in ids]
         except ValueError:
             continue
-        body = CASE_HEADER + 'Definition forms : list form := [\n' + ';\n'.join(forms) + '].\n'
+        body = CASE_HEADER + em.text() + 'Definition forms : list form := [\n' + ';\n'.join(forms) + '].\n'
         body += 'Definition dflt : form := mk_form 0 0 0 false false [] [] [] [].\n'
         body += 'Definition F (k : nat) : form := nth k forms dflt.\n'
         body += ('Definition seed : list ((form * bool) * unit) := %s.\n'
@@ -695,7 +764,7 @@ def freshness(ctx):
                    clist('(%s, %s)' % (cz(b), cz(h)) for b, h in zip(bits, o0['float_hashes'])))
                 + 'Fixpoint bad (f : Z -> Z) (k : nat) (l : list (Z * Z)) : list nat :=\n'
                   '  match l with [] => [] | (x, h) :: l\' => if f x =? h then bad f (S k) l\' else k :: bad f (S k) l\' end.\n'
-                  'Eval vm_compute in (bad inthash 0%nat ints ++ bad floathash 1000%nat floats).\n')
+                  'Eval vm_compute in (app (bad inthash 0%nat ints) (bad floathash 1000%nat floats)).\n')
         ok_, out = ctx.coq_eval('C13_numhash', body)
         ctx.obligations += 1
         bad = parse_coq_list_of_nat(out) if ok_ else None
@@ -732,6 +801,13 @@ def freshness(ctx):
                 continue
             done.add(key)
             prob, pairs, stats = freshness_compare(ship, regen)
+            if prob:
+                # the generator's numbering of temporaries may differ from run to run: retry on the canonical text
+                from harness.props.c13_canon import canon_code
+                prob2, pairs, stats = freshness_compare(canon_code(ship, sort_runs=False), canon_code(regen, sort_runs=False))
+                if not prob2:
+                    prob = None
+                    stats['needed_canonical_renaming'] = True
             if prob:
                 ctx.report('impl:stale-shipped-code:%s' % which,
                            'pyiga/%s is not what the generator produces today (PYTHONHASHSEED=%s): %s' % (which, seed, prob),
@@ -804,6 +880,11 @@ def real_builds(ctx):
     ctx.cov['real_build_pairs'] = len(pairs)
 
 
+def tick(ctx, what):
+    import time
+    log('[C13] %-28s t=%.1fs' % (what, time.time() - ctx.t0))
+
+
 def run(ctx):
     thorough = ctx.tier == 'thorough'
     ok1 = ctx.obligations_stage(PROPS, extra_targets=['C13/Examples.vo', 'C13/Spec.vo'])
@@ -819,16 +900,37 @@ def run(ctx):
         '(statement interning and def/use extraction in harness/props/c13.py are trusted)',
         'not covered: accidental 64-bit collisions; cythonize/gcc/dlopen (thorough tier builds 3 neighbour pairs for real)',
     ]
+    tick(ctx, 'obligations done')
     ctx.impl.build()
     tr, tr_ok = gen_table(ctx)
+    tick(ctx, 'tables translated')
     specs, dist = F.gen_specs(ctx.rng, thorough)
     log('[C13] %d form specs: %s' % (len(specs), dist))
-    outs = run_chunks(ctx, 'forms', specs, nproc=8)
+    # vf.hash() contains hash(type) = address of the class object: hashes are comparable only
+    # inside one process.  Groups (a base form with its mutants) stay together; the predefined
+    # forms are part of every chunk.
+    nproc = 8
+    order = []
+    for s in specs:
+        if not s.get('shipped') and s['group'] not in order:
+            order.append(s['group'])
+    home = {g: k % nproc for k, g in enumerate(order)}
+    chunks = [[s for s in specs if s.get('shipped') or home[s['group']] == k] for k in range(nproc)]
+    with ThreadPoolExecutor(max_workers=nproc) as ex:
+        outs = list(ex.map(lambda c: ctx.impl.run(DRIVER, {'mode': 'forms', 'specs': c}, timeout=1500), chunks))
+    recs = []           # (spec, result) with process-tagged hashes, predefined forms once per chunk
     byid = {}
-    for o in outs:
-        for r in o['results']:
-            byid[r['id']] = r
+    for k, (c, o) in enumerate(zip(chunks, outs)):
+        rb = {r['id']: r for r in o['results']}
+        for s in c:
+            r = rb[s['id']]
+            if 'hash' in r:
+                r['hash'] = 'p%d:%s' % (k, r['hash'])
+            r['chunk'] = k
+            recs.append((s, r))
+            byid.setdefault(s['id'], r)
     results = [byid[s['id']] for s in specs]
+    tick(ctx, 'forms generated')
     nrej = 0
     for s, r in zip(specs, results):
         ctx.count(('form', s['code']), nontrivial=r['status'] == 'Ok')
@@ -837,7 +939,7 @@ def run(ctx):
     bases_bad = [(s, r) for s, r in zip(specs, results) if s.get('shipped') and r['status'] != 'Ok']
     for s, r in bases_bad:
         ctx.report('impl:predefined-form-fails', 'a predefined form does not build: %s (%s)' % (s['code'], r.get('msg')), {'specs': [s]})
-    ncoll = check_forms_property(ctx, specs, results)
+    ncoll = check_forms_property(ctx, [x[0] for x in recs], [x[1] for x in recs])
     ctx.cov['forms'] = len(specs)
     ctx.cov['forms_rejected'] = nrej
     ctx.cov['distinct_hashes'] = len({r['hash'] for r in results if r['status'] == 'Ok'})
@@ -846,9 +948,12 @@ def run(ctx):
         if r['status'] == 'Ok' and s['mut'] != 'base':
             ctx.sample({'spec': s['code'], 'mutated': s['mut'], 'hash': r['hash'], 'code_sha': r['code']}, limit=3)
     if tr is not None:
-        tie_keys(ctx, specs, results)
+        tie_keys(ctx, [x[0] for x in recs], [x[1] for x in recs])
+    tick(ctx, 'key tie done')
     cache_sequences(ctx, specs, results, tr)
+    tick(ctx, 'cache sequences done')
     freshness(ctx)
+    tick(ctx, 'freshness done')
     if thorough:
         real_builds(ctx)
     ctx.cov['rule'] = ('forms = snippets over the public vform API (templates, shape-directed random expressions, VForm-API snippets, the 14 predefined forms) '
